@@ -211,7 +211,7 @@ func genCalls(cfg simkit.RunConfig) *Scenario {
 		sc.ExpPool = append(sc.ExpPool, ExpArgs{OffMs: pick(r, int64(r.Intn(3000))-1000, int64(r.Intn(600000))-300000), Logical: int64(r.Intn(1 << 18)), TTL: pick(r, int64(0), int64(r.Intn(3000)), int64(r.Intn(600000)))})
 	}
 	n := pick(r, 1, 2, 2, 3, 3, 4, 5, 6, 8)
-	quietUntil := int64(330+r.Intn(230)) * 1000000
+	quietUntil := int64(320+r.Intn(300)) * 1000000
 	for ci := 0; ci < n; ci++ {
 		c := Caller{StartUs: int64(r.Intn(50000)) + int64(ci)}
 		if sc.Tempo == "adaptive" {
@@ -240,6 +240,10 @@ func genCalls(cfg simkit.RunConfig) *Scenario {
 		sc.Callers = append(sc.Callers, c)
 	}
 	sc.TailMs = pick(r, int64(10), int64(3000), int64(12000))
+	if sc.Tempo == "adaptive" {
+		// long enough for a shrunk interval to recover (20 ms per second) while nobody reads
+		sc.TailMs = pick(r, int64(10), int64(12000), int64(100000), int64(400000))
+	}
 	return sc
 }
 
